@@ -22,7 +22,7 @@ OWN = {
     "C11": {"reloaded_context_equals_a_new_one", "reloaded_list_is_in_use", "configuration_is_replaced", "same_layout_keeps_the_method_and_its_word",
             "changed_layout_replaces_the_method", "later_events_see_the_new_configuration", "method_matches_the_configured_layout",
             "method_is_new_or_refreshed_by_the_update", "event_result_is_the_methods_result", "events_use_the_contexts_data", "current_method_is_last",
-            "constructor_consults_the_user_files_whatever_the_options"},
+            "constructor_consults_the_user_files_whatever_the_options", "data_is_the_same_for_every_layout_and_option"},
     "C15": {"first_candidate_is_the_composed_text", "at_most_nine", "english_candidate_iff_enabled_and_not_ansi_and_different", "english_candidate_is_the_raw_keys",
             "non_emoji_candidates_by_distance", "no_candidate_twice", "dictionary_candidates_are_search_answers_wrapped", "pattern_is_anchored",
             "pattern_has_the_letter_class", "literal_part_has_no_regex_meta_character", "literal_part_is_the_word_without_punctuation", "wildcard_width_by_length",
